@@ -76,3 +76,30 @@ Example js_isolation_now_holds :
 Proof.
   repeat split; apply run_on_restores; try exact r0_wf; intros k; simpl; set_solver.
 Qed.
+
+(* ---- the excluded class really is outside: a script that creates a global ---------------------- *)
+(* call 1 (`t = 5; t`) leaves the binding 30 on the runtime; call 2 (`typeof t`), which has no
+   args at all, sees it on the pooled runtime but not on a new one.  With a script that cannot
+   write globals (the property's class) run_on_g is run_on. *)
+Definition gw_s1 : gscript := fun _ => (Normal (JNum (NFin 5)), [(30%N, JNum (NFin 5))]).
+
+Lemma js_global_writers_refuted :
+  exists r (s1 : gscript) (s2 : script),
+    rt_wf r /\
+    fst (run_on_g r (fresh_vm r) [] [] s1) <> fresh_vm r /\
+    snd (run_on r (fst (run_on_g r (fresh_vm r) [] [] s1)) [] [] s2)
+      <> snd (run_on r (fresh_vm r) [] [] s2).
+Proof.
+  exists r0, gw_s1, (denote (STypeof 30%N)).
+  split; [exact r0_wf|]. split.
+  - intros H.
+    assert (E1 : fst (run_on_g r0 (fresh_vm r0) [] [] gw_s1) !! 30%N = Some (mkSlot (JNum (NFin 5)) true false))
+      by (vm_compute; reflexivity).
+    assert (E2 : fresh_vm r0 !! 30%N = None) by (vm_compute; reflexivity).
+    rewrite H, E2 in E1. discriminate.
+  - vm_compute. discriminate.
+Qed.
+
+Lemma run_on_g_pure_script r m ord1 ord2 (s : script) :
+  run_on_g r m ord1 ord2 (fun g => (s g, [])) = run_on r m ord1 ord2 s.
+Proof. unfold run_on_g, run_on. destruct (set_args m ord1) as [m1 [|]]; reflexivity. Qed.
